@@ -1,6 +1,6 @@
 (* C02 — a guard sees exactly what the previous guard for that key left. *)
 From Coq Require Import List Arith ZArith.
-From LK Require Import AList Model Inv StepInv PropLemmas.
+From LK Require Import AList Model Inv StepInv PropLemmas DropInv Stream.
 Import ListNotations.
 
 (* vof s k = the value stored for k (None if k has no entry or a valueless placeholder).
@@ -21,6 +21,20 @@ Proof. exact guard_op_local. Qed.
 Theorem C02_new_guard_shows_stored_value : forall c s l s' g k v,
   reachable c s -> step c s l = ROk s' (OGuard g k v) -> v = vof s k.
 Proof. intros c s l s' g k v H. exact (guard_obs_value c s l s' g k v (reachable_inv c s H)). Qed.
+
+(* Over whole runs (otrace = a run with its observations, any agents, any interleaving): as long as no guard
+   operation on a guard for key k happens (touches k: LGuardOp on a guard whose key is k, or consuming the
+   container), the value under k stays what it was -- whatever else is unlocked, awaited, cancelled, evicted
+   or scanned in between ... *)
+Theorem C02_value_history : forall c k tr s s',
+  otrace c s tr s' -> (forall e, In e tr -> ~ touches k e) -> vof s' k = vof s k.
+Proof. intros c k. exact (value_only_changed_by_own_guard_ops c k). Qed.
+
+(* ... and the next guard for k, however obtained, shows exactly that value: what the previous guard left. *)
+Theorem C02_next_guard_sees_what_was_left : forall c k tr s s' l s'' g v,
+  reachable c s -> otrace c s tr s' -> (forall e, In e tr -> ~ touches k e) ->
+  step c s' l = ROk s'' (OGuard g k v) -> v = vof s k.
+Proof. intros c k tr s s' l s'' g v H. exact (next_guard_sees_what_was_left c k tr s s' l s'' g v (reachable_inv c s H)). Qed.
 
 Example C02_witness :
   run (mkCfg true) [LStart 0 (CLock ShAsync 1 None); LResume 0 []; LGuardOp 0 (GInsert 5);
